@@ -47,7 +47,7 @@ import (
 
 // event: every event carries every field (spec/ConcTrace.tla).
 type event struct {
-	Ev     string     `json:"ev"` // Reset inv ret Info | Race Panic Timeout DoubleClose NeverClosed OptionsChanged
+	Ev     string     `json:"ev"` // Reset inv ret Info BatchObs | Race Panic Timeout DoubleClose NeverClosed OptionsChanged
 	Run    int        `json:"run"`
 	Len    int        `json:"len"` // Reset: number of events of the history that follow
 	P      int        `json:"p"`
@@ -905,6 +905,126 @@ func runHammer(runs int, seed int64) {
 	}
 }
 
+// ---- large batches ---------------------------------------------------------------------------------------------------
+
+// runBatch: AddTriples(batch) is ONE atomic step for a batch of ANY size. One writer adds N fresh triples that share
+// a subject (N around every power of two up to a few thousand) to a graph that already holds `pre` triples of that
+// subject, while readers keep calling TriplesForSubject (count of results) and Exist(first / last / middle triple of
+// the batch). Each reader logs the sequence of its observations (consecutive repetitions collapsed) as one BatchObs
+// event: b = <<lowest legal value, highest legal value>>, res = observations in real-time order. The last observation
+// of every reader is made after AddTriples returned.
+func runBatch(runs int, seed int64) {
+	sizes := []int{1, 2, 3, 7, 8, 9, 15, 16, 17, 31, 32, 33, 63, 64, 65, 100, 127, 128, 129, 200, 255, 256, 257, 500, 511, 512, 513,
+		1000, 1023, 1024, 1025, 2047, 2048, 2049, 3000, 4096, 4097, 5000, 8192, 10001}
+	for run := 1; run <= runs; run++ {
+		rng := rand.New(rand.NewSource(seed*7919 + int64(run)))
+		n := sizes[(run-1)%len(sizes)]
+		if run > len(sizes) && rng.Intn(2) == 0 {
+			n = 1 + rng.Intn(6000)
+		}
+		pre := []int{0, 0, 3, 40}[rng.Intn(4)]
+		st := memory.NewStore()
+		h, err := st.NewGraph(ctx, g1)
+		must(err)
+		subj, err := node.Parse(fmt.Sprintf("/b<s%d>", run))
+		must(err)
+		mk := func(tag string, j int) *triple.Triple {
+			var p *predicate.Predicate
+			if j%3 == 0 {
+				p, err = predicate.NewTemporal(fmt.Sprintf("%s%d", tag, j%11), time.Unix(int64(1000+j), 0).UTC())
+			} else {
+				p, err = predicate.NewImmutable(fmt.Sprintf("%s%d", tag, j%11))
+			}
+			must(err)
+			o, err := node.Parse(fmt.Sprintf("/b<%s-o%d>", tag, j))
+			must(err)
+			t, err := triple.New(subj, p, triple.NewNodeObject(o))
+			must(err)
+			return t
+		}
+		var old []*triple.Triple
+		for j := 0; j < pre; j++ {
+			old = append(old, mk("old", j))
+		}
+		must(h.AddTriples(ctx, old))
+		b := make([]*triple.Triple, n)
+		for j := range b {
+			b[j] = mk("new", j)
+		}
+		// the order inside the batch is shuffled so that chunking by position does not align with construction
+		rng.Shuffle(n, func(i, j int) { b[i], b[j] = b[j], b[i] })
+		probes := []*triple.Triple{b[0], b[n-1], b[n/2]}
+		var done int32
+		nr := 2 + rng.Intn(3)
+		obs := make([][]int, nr)
+		var wg sync.WaitGroup
+		for r := 0; r < nr; r++ {
+			wg.Add(1)
+			go func(r int) {
+				defer wg.Done()
+				add := func(v int) {
+					if k := len(obs[r]); k == 0 || obs[r][k-1] != v {
+						obs[r] = append(obs[r], v)
+					}
+				}
+				for k := 0; ; k++ {
+					last := atomic.LoadInt32(&done) == 1
+					if r%2 == 0 {
+						ch := make(chan *triple.Triple, 64)
+						cnt := 0
+						errc := make(chan error, 1)
+						go func() { errc <- h.TriplesForSubject(ctx, subj, storage.DefaultLookup, ch) }()
+						for range ch {
+							cnt++
+						}
+						must(<-errc)
+						add(cnt)
+					} else {
+						ok, err := h.Exist(ctx, probes[(k+r)%3])
+						must(err)
+						if ok {
+							add(1)
+						} else {
+							add(0)
+						}
+					}
+					if last {
+						return
+					}
+				}
+			}(r)
+		}
+		if d := rng.Intn(4); d > 0 {
+			time.Sleep(time.Duration(d*50) * time.Microsecond)
+		}
+		must(h.AddTriples(ctx, b))
+		atomic.StoreInt32(&done, 1)
+		wg.Wait()
+		var evs []event
+		for r := 0; r < nr; r++ {
+			e := blank("BatchObs", run)
+			e.P, e.T, e.Res = r+1, n, obs[r]
+			if r%2 == 0 {
+				e.Op, e.B = "Count", []int{pre, pre + n}
+			} else {
+				e.Op, e.B = "Exist", []int{0, 1}
+			}
+			e.seq = stamp()
+			evs = append(evs, e)
+			stats["batch_observations"] += len(obs[r])
+			if len(obs[r]) > 1 {
+				stats["batch_readers_overlapping_the_add"]++
+			}
+		}
+		emitHistory(run, []string{g1}, []int{}, evs)
+		stats["runs"]++
+		stats["batch_triples"] += n
+		if n > stats["batch_max"] {
+			stats["batch_max"] = n
+		}
+	}
+}
+
 func main() {
 	if len(os.Args) < 2 {
 		must(fmt.Errorf("usage: concdrv small|targeted|stress ..."))
@@ -931,6 +1051,8 @@ func main() {
 		runStress(*runs, *seed)
 	case "hammer":
 		runHammer(*runs, *seed)
+	case "batch":
+		runBatch(*runs, *seed)
 	default:
 		must(fmt.Errorf("unknown mode %q", mode))
 	}
